@@ -31,6 +31,10 @@ func main() {
 			runC04(os.Args[3:])
 		case "C12":
 			runC12(os.Args[3:])
+		case "C15":
+			runC15(os.Args[3:])
+		case "C16":
+			runC16(os.Args[3:])
 		case "C09":
 			runC09(os.Args[3:])
 		case "C10":
